@@ -20,7 +20,7 @@ fn newbuf() -> Buf {
 /// Symbolic octet string of 0..=N octets.
 struct Bytes<const N: usize> {
     d: [u8; N],
-    n: usize,
+    pub(crate) n: usize,
 }
 impl<const N: usize> Bytes<N> {
     fn any() -> Self {
@@ -242,12 +242,12 @@ fn c05_unknown_opaque() {
 
 /// flat absolute name with a concrete label structure (L1 >= 1 and L2 >= 0
 /// content octets) and fully symbolic label content
-struct FlatName {
-    w: [u8; 8],
-    n: usize,
+pub(crate) struct FlatName {
+    pub(crate) w: [u8; 8],
+    pub(crate) n: usize,
 }
 impl FlatName {
-    fn any<const L1: usize, const L2: usize>() -> Self {
+    pub(crate) fn any<const L1: usize, const L2: usize>() -> Self {
         let c: [u8; 4] = kani::any();
         let mut w = [0u8; 8];
         let mut n = 0;
@@ -273,11 +273,11 @@ impl FlatName {
         n += 1;
         FlatName { w, n }
     }
-    fn name(&self) -> Name<&[u8]> {
+    pub(crate) fn name(&self) -> Name<&[u8]> {
         Name::from_octets(&self.w[..self.n]).unwrap()
     }
     /// w with label content lower-cased
-    fn lower(&self) -> [u8; 8] {
+    pub(crate) fn lower(&self) -> [u8; 8] {
         let mut o = self.w;
         let mut pos = 0;
         let mut k = 0;
